@@ -69,7 +69,11 @@ def correspond(ctx):
 
 def search(ctx):
     """a broken theorem / correspondence: look for a concrete failing input with the monitors on a wider population"""
+    from harness import engine_stream
     from vlib import par
+    engine_stream.search_from_core(ctx, ['C01'], 'plain')
+    if ctx.violations:
+        return
     par.run_parallel(ctx, 'harness.engine_stream', 'run_chunk',
                      [{'n_programs': 40, 'props': ['C01'], 'mode': 'plain'}] * 7 +
                      [{'n_programs': 30, 'props': ['C01'], 'mode': 'pause'}] * 7)
